@@ -239,9 +239,23 @@ func c18Run(f []string) []string {
 		lt := t.In(loc)
 		h, m, s := lt.Clock()
 		_, off := lt.Zone()
+		// what a holder of a copy sees (client settings are handed out as clones)
+		okClone := w.Clone().Contains(t)
 
 		return []string{vutil.B(ok), strconv.Itoa(int(lt.Weekday())), strconv.Itoa(h), strconv.Itoa(m),
-			strconv.Itoa(s), strconv.Itoa(off)}
+			strconv.Itoa(s), strconv.Itoa(off), vutil.B(okClone)}
+	case "C18.ctor":
+		var w *Weekly
+		switch f[1] {
+		case "empty":
+			w = EmptyWeekly()
+		case "full":
+			w = FullWeekly()
+		default:
+			panic("unknown constructor " + f[1])
+		}
+
+		return append([]string{vutil.Hex(w.location.String())}, c18FmtDays(w.days)...)
 	case "C18.validate":
 		w := &Weekly{}
 		err := w.validate(dayRange{start: time.Duration(c18I64(f[1])), end: time.Duration(c18I64(f[2]))})
@@ -862,6 +876,9 @@ func c18Generate(r *rand.Rand, emit vutil.Emit) {
 			}
 		}
 	}
+
+	emit("C18.ctor", "empty")
+	emit("C18.ctor", "full")
 
 	// Part 2: VERIF_N random cases over all ops.
 	n := vutil.N(100000)
